@@ -155,6 +155,23 @@ def tour_same_literal_twice():
     return t
 
 
+def tour_non_bmp():
+    """characters outside the Basic Multilingual Plane (an emoji in a comment, a mathematical letter in a name):
+    offsets and lengths count characters of the embedded text"""
+    t = Tour("non-bmp-characters")
+    t.L("from nada_dsl import *")
+    t.L("# \U0001F642 totals for the \U0001D538-team")
+    t.L("")
+    t.L("def nada_main():")
+    t.L("    p = Party(name='\U0001D538lice')", party="\U0001D538lice")
+    t.L("    a = SecretInteger(Input(name='a', party=p, doc='\U0001F4B0 amount'))", input="a")
+    t.L("    b = SecretInteger(Input(name='b', party=p))  # \U0001F642", input="b")
+    t.L("    s = a + b", op="Addition")
+    t.L("    m = s * a  # \U0001F680\U0001F680", op="Multiplication")
+    t.L("    return [Output(m, 'o', p)]", output="o")
+    return t
+
+
 def tour_folded_literals():
     """literals folded from constants declared on other lines: the folded literal is created where the fold is written"""
     t = Tour("folded-literals")
@@ -223,4 +240,5 @@ def all_cases():
         ("same-literal-twice", "progs", "lit2.py", tour_same_literal_twice().text(), tour_same_literal_twice()),
         ("two-helper-files-one-base-name", "progs3", "c19_pk_main.py", PK_MAIN, tour_pk()),
         ("folded-literals", "progs", "folded.py", tour_folded_literals().text(), tour_folded_literals()),
+        ("non-bmp-characters", "progs", "nonbmp.py", tour_non_bmp().text(), tour_non_bmp()),
     ]
